@@ -2,76 +2,143 @@
 
 Thin: the core is library indexing semantics.  Decided: R1 inclusive stop,
 R2 get/set symmetry, R3 KeyError discipline.
+
+The rules identify locals by *role* (what they are computed from), never by
+name: renaming locals, turning `if x is None: x = d` into a conditional
+expression, inverting an if/else or re-ordering independent statements does not
+change any verdict.  A shape that cannot be assigned roles is INCONCLUSIVE.
 """
 
 from __future__ import annotations
 
 import ast
-from typing import Dict, List, Optional
+from typing import Dict, List, Optional, Set, Tuple
 
 from fsa.cfg import raised_class
-from fsa.match import dict_slot, is_call, is_const, is_self_call, method_call
+from fsa.match import Unknown, dict_slot, is_call, is_const, is_self_call, is_underscore_key, method_call
 from fsa.source import Unsupported, iter_own_nodes, stmt_key, text
 from rules.common import Fn
 
 VC = 'fsic.core.containers.VectorContainer'
+SPAN = ("self.__dict__['span']", 'self.span')
+
+
+def _names_from(f: Fn, pred) -> Set[str]:
+    """Locals having a definition whose value satisfies `pred`."""
+    out = set()
+    for nm in f.lf.locals:
+        for d in f.vdefs(nm):
+            if d.op is None and pred(d.value):
+                out.add(nm)
+    return out
 
 
 def r1_inclusive_stop(R) -> None:
     q = f'{VC}._resolve_period_slice'
     f = Fn(R, q)
-    # defaults
-    want = {'start': ("self.__dict__['span'][0]", 'self.span[0]'), 'stop': ("self.__dict__['span'][-1]", 'self.span[-1]'), 'step': ('1',)}
-    for nm, vals in want.items():
-        ds = [d for d in f.assigns_to(nm) if any(truth and text(a) == f'{nm} is None' for (a, truth, _t) in f.guard_atoms(d.id))]
-        ok = len(ds) == 1 and text(ds[0].ast.value) in vals
-        R.check(ok, q, f'default:{nm}:{text(ds[0].ast.value) if ds else None}', f'an open {nm} defaults to {vals[-1]}',
-                f'default for an open `{nm}` is {text(ds[0].ast.value) if ds else "<missing>"}, expected {vals[-1]}', where=f.fi.where)
-    # unpacking of the slice
-    un = [n for n in f.cfg.nodes if n.kind == 'stmt' and isinstance(n.ast, ast.Assign) and isinstance(n.ast.targets[0], ast.Tuple)]
-    ok = bool(un) and text(un[0].ast.targets[0]) in ('(start, stop, step)', 'start, stop, step') and text(un[0].ast.value) in ('(index.start, index.stop, index.step)',)
-    R.check(ok, q, 'unpack', 'start/stop/step are read from the slice in that order', f'`{text(un[0].ast) if un else "?"}`', where=f.fi.where)
-    # locations
-    locs = {}
-    for n in f.cfg.nodes:
-        a = n.ast
-        if n.kind == 'stmt' and isinstance(a, ast.Assign) and is_self_call(a.value, '_locate_period_in_span'):
-            locs[text(a.targets[0])] = text(a.value.args[0])
-    R.check(locs.get('start_location') == 'start' and locs.get('stop_location') == 'stop', q, f'locate:{locs}', 'start and stop labels are located separately',
-            f'locations are computed as {locs}', where=f.fi.where)
-    # the +1
-    incs = [n for n in f.cfg.nodes if n.kind == 'stmt' and isinstance(n.ast, ast.AugAssign) and text(n.ast.target) == 'stop_location']
-    if R.require(q, len(incs), 'stop_location += 1 (inclusive stop)', fi=f.fi, pred=lambda x: isinstance(x, ast.AugAssign)):
-        n = incs[0]
-        R.check(isinstance(n.ast.op, ast.Add) and is_const(n.ast.value, 1), q, 'inclusive:' + text(n.ast), 'the stop position is made inclusive by +1',
-                f'`{text(n.ast)}` is not `stop_location += 1`', where=f.where(n))
-        atoms = [(text(a), truth) for (a, truth, _t) in f.guard_atoms(n.id)]
-        ok = ('isinstance(stop_location, slice)', False) in atoms and len(incs) == 1
-        R.check(ok, q, 'inclusive-guard:' + repr(atoms)[:80], 'the +1 applies exactly when the located stop is not a slice',
-                f'`stop_location += 1` is guarded by {atoms}; expected: only when not isinstance(stop_location, slice)', where=f.where(n))
-    # slice hits: start -> .start, stop -> .stop
-    for nm, attr in (('start_location', 'start'), ('stop_location', 'stop')):
-        ds = [d for d in f.assigns_to(nm) if isinstance(d.ast, ast.Assign) and text(d.ast.value) == f'{nm}.{attr}']
-        ok = len(ds) == 1 and any(truth and text(a) == f'isinstance({nm}, slice)' for (a, truth, _t) in f.guard_atoms(ds[0].id))
-        R.check(ok, q, f'slice-hit:{nm}', f'a slice hit contributes its .{attr}', f'no `{nm} = {nm}.{attr}` under isinstance({nm}, slice)', where=f.fi.where)
-    rets = f.returns()
-    R.check(len(rets) == 1 and text(rets[0].ast.value) in ('(start_location, stop_location, step)',), q, 'return', 'returns (start, stop, step) positions',
-            f'returns `{text(rets[0].ast.value) if rets else "?"}`', where=f.fi.where)
-
-
-def _tuple_path(f: Fn):
-    """Facts about the tuple-key path of __getitem__/__setitem__."""
-    out = {}
-    for n in f.cfg.nodes:
-        a = n.ast
-        if n.ast is None:
+    param = f.fi.params()[1] if len(f.fi.params()) > 1 else 'index'
+    role: Dict[str, str] = {}
+    falsy_default = {}
+    for part in ('start', 'stop', 'step'):
+        ns = _names_from(f, lambda v, part=part: text(v) == f'{param}.{part}')
+        if not ns:
+            # `x = index.part or <default>`: a falsy-test default
+            ns = _names_from(f, lambda v, part=part: isinstance(v, ast.BoolOp) and isinstance(v.op, ast.Or) and text(v.values[0]) == f'{param}.{part}')
+            if len(ns) == 1:
+                falsy_default[part] = True
+        if len(ns) != 1:
+            raise Unknown(f'{q}: cannot identify the local holding `{param}.{part}` (found {sorted(ns)})')
+        role[part] = ns.pop()
+    for part in falsy_default:
+        R.violation(q, f'default-falsy:{part}', f'the default for an open slice {part} is applied with `or`, i.e. to every *falsy* label (0, \'\') instead of only to '
+                    f'None: a slice bounded by such a label is read as open', where=f.fi.where)
+    if falsy_default:
+        return
+    # defaults for open ends
+    want = {'start': [f'{s}[0]' for s in SPAN], 'stop': [f'{s}[-1]' for s in SPAN], 'step': ['1']}
+    for part, nm in role.items():
+        ds = [d for d in f.vdefs(nm) if d.op is None and d.knows(f'{nm} is None')]
+        if not ds:
+            falsy = [d for d in f.vdefs(nm) if d.op is None and isinstance(d.node.ast, ast.Assign) and isinstance(d.node.ast.value, ast.BoolOp)]
+            if falsy:
+                R.violation(q, f'default-falsy:{part}', f'`{text(falsy[0].node.ast)[:60]}`: the default for an open {part} is applied to every *falsy* label '
+                            f'(0, \'\') instead of only to None: a slice bounded by such a label is read as open', where=f.where(falsy[0].node))
+                continue
+            R.violation(q, f'default-missing:{part}', f'no default for an open slice {part} (`{nm} is None`)', where=f.fi.where)
             continue
-        if n.kind == 'stmt' and isinstance(a, ast.Assign) and isinstance(a.targets[0], ast.Tuple) and text(a.value) == 'key':
-            out['unpack'] = text(a.targets[0])
-        if n.kind == 'stmt' and isinstance(a, ast.Assign) and is_self_call(a.value, '_resolve_period_slice'):
-            out['slice_helper'] = (text(a.targets[0]), text(a.value.args[0]))
-        if n.kind == 'stmt' and isinstance(a, ast.Assign) and is_self_call(a.value, '_locate_period_in_span'):
-            out['loc_helper'] = (text(a.targets[0]), text(a.value.args[0]))
+        got = text(ds[0].value)
+        R.check(got in want[part], q, f'default:{part}:{got}', f'an open {part} defaults to {want[part][-1]}',
+                f'default for an open `{part}` is `{got}`, expected {want[part][-1]}', where=f.where(ds[0].node))
+    # located positions
+    loc: Dict[str, str] = {}
+    located = {part: _names_from(f, lambda v, part=part: is_self_call(v, '_locate_period_in_span') and len(v.args) == 1 and text(v.args[0]) == role[part])
+               for part in ('start', 'stop')}
+    for part in ('start', 'stop'):
+        other = 'stop' if part == 'start' else 'start'
+        if not located[part] and len(located[other]) >= 2:
+            R.violation(q, f'locate:{part}', f'the {part} label `{role[part]}` is never located: both positions are computed from the {other} label', where=f.fi.where)
+            return
+        if not located[part]:
+            R.violation(q, f'locate:{part}', f'the {part} label `{role[part]}` is never located in the span', where=f.fi.where)
+            return
+    for part in ('start', 'stop'):
+        if len(located[part]) != 1:
+            raise Unknown(f'{q}: cannot identify the local holding the located {part} position')
+        loc[part] = next(iter(located[part]))
+    R.ok(q, 'start and stop labels are located separately', detail=loc)
+    # slice hits
+    for part, attr in (('start', 'start'), ('stop', 'stop')):
+        nm = loc[part]
+        ds = [d for d in f.vdefs(nm) if d.op is None and d.knows(f'isinstance({nm}, slice)')]
+        if not ds:
+            R.violation(q, f'slice-hit-missing:{part}', f'a slice returned for the {part} label is not reduced to a position', where=f.fi.where)
+            continue
+        R.check(text(ds[0].value) == f'{nm}.{attr}', q, f'slice-hit:{part}:{text(ds[0].value)}', f'a slice hit for the {part} label contributes its .{attr}',
+                f'a slice hit for the {part} label contributes `{text(ds[0].value)}`, expected `.{attr}`', where=f.where(ds[0].node))
+    # the inclusive +1
+    sn = loc['stop']
+    incs = [d for d in f.vdefs(sn) if (d.op is not None) or (d.op is None and isinstance(d.value, ast.BinOp) and sn in text(d.value))]
+    if not R.require(q, len(incs), 'stop position + 1 (inclusive stop)', fi=f.fi, pred=lambda x: isinstance(x, ast.AugAssign)):
+        return
+    R.check(len(incs) == 1, q, 'inclusive-once', 'the stop position is adjusted once', f'{len(incs)} adjustments of the stop position', where=f.fi.where)
+    d = incs[0]
+    if d.op is not None:
+        one = isinstance(d.op, ast.Add) and is_const(d.value, 1)
+        shown = f'{sn} {type(d.op).__name__} {text(d.value)}'
+    else:
+        one = text(d.value) in (f'{sn} + 1', f'1 + {sn}')
+        shown = text(d.value)
+    R.check(one, q, 'inclusive:' + shown, 'the stop position is made inclusive by +1', f'the stop position is adjusted by `{shown}`, not by + 1', where=f.where(d.node))
+    R.check(d.knows(f'isinstance({sn}, slice)', False), q, 'inclusive-guard', 'the +1 applies exactly when the located stop is not a slice',
+            f'the +1 on the stop position is not conditional on `not isinstance({sn}, slice)` (a slice hit already carries an exclusive stop)', where=f.where(d.node))
+    # result
+    rets = f.returns()
+    ok = len(rets) == 1 and isinstance(rets[0].ast.value, ast.Tuple) and [text(e) for e in rets[0].ast.value.elts] == [loc['start'], loc['stop'], role['step']]
+    R.check(ok, q, 'return:' + (text(rets[0].ast.value) if rets else '?'), 'returns (start position, stop position, step)',
+            f'returns `{text(rets[0].ast.value) if rets else "?"}`, expected ({loc["start"]}, {loc["stop"]}, {role["step"]})', where=f.fi.where)
+
+
+def _tuple_path(f: Fn) -> Dict[str, object]:
+    """Role-based facts about the (name, index) path of __getitem__/__setitem__."""
+    out: Dict[str, object] = {}
+    key = f.fi.params()[1]
+    unp = [n for n in f.cfg.nodes if n.kind == 'stmt' and isinstance(n.ast, ast.Assign) and isinstance(n.ast.targets[0], (ast.Tuple, ast.List))
+           and text(n.ast.value) == key and len(n.ast.targets[0].elts) == 2]
+    if len(unp) != 1:
+        raise Unknown(f'{f.q}: the key is not unpacked as `name, index = {key}`')
+    name, index = [text(e) for e in unp[0].ast.targets[0].elts]
+    out['name'], out['index'] = name, index
+    sl = [n for n in f.cfg.nodes if n.kind == 'stmt' and isinstance(n.ast, ast.Assign) and is_self_call(n.ast.value, '_resolve_period_slice')]
+    lc = [n for n in f.cfg.nodes if n.kind == 'stmt' and isinstance(n.ast, ast.Assign) and is_self_call(n.ast.value, '_locate_period_in_span')]
+    if len(sl) != 1 or len(lc) != 1:
+        raise Unknown(f'{f.q}: expected one call of _resolve_period_slice and one of _locate_period_in_span on the tuple path')
+    out['slice_arg'] = text(sl[0].ast.value.args[0])
+    out['loc_arg'] = text(lc[0].ast.value.args[0])
+    tg = sl[0].ast.targets[0]
+    out['slice_names'] = [text(e) for e in tg.elts] if isinstance(tg, (ast.Tuple, ast.List)) else [text(tg)]
+    out['loc_name'] = text(lc[0].ast.targets[0])
+    out['slice_guard'] = f.holds(sl[0].id, f'isinstance({index}, slice)')
+    out['loc_guard'] = f.holds(lc[0].id, f'isinstance({index}, slice)', False) or not f.cfg.reaches(sl[0].id, lc[0].id)
     return out
 
 
@@ -79,38 +146,63 @@ def r2_get_set_symmetry(R) -> None:
     g = Fn(R, f'{VC}.__getitem__')
     s = Fn(R, f'{VC}.__setitem__')
     tg, ts = _tuple_path(g), _tuple_path(s)
-    for k in ('unpack', 'slice_helper', 'loc_helper'):
-        R.check(tg.get(k) is not None and tg.get(k) == ts.get(k), f'{VC}.__setitem__', f'symmetry:{k}:{tg.get(k)}|{ts.get(k)}',
-                f'get and set resolve the key the same way ({k})', f'__getitem__ has {k}={tg.get(k)} but __setitem__ has {k}={ts.get(k)}', where=s.fi.where)
-    # applications
-    # get: values[start:stop:step], values[location] where values = self.__getattr__(name)
-    rets = [r for r in g.returns() if isinstance(r.ast.value, ast.Subscript)]
-    forms = sorted(text(r.ast.value.slice) for r in rets)
-    R.check(forms == ['location', 'start_location:stop_location:step'], g.q, f'get-forms:{forms}', 'get applies [start:stop:step] / [location] to the series',
-            f'__getitem__ returns subscripts {forms}', where=g.fi.where)
-    bases = {text(r.ast.value.value) for r in rets}
-    vals_ok = False
-    if bases == {'values'}:
-        ds = g.assigns_to('values')
-        vals_ok = len(ds) == 1 and text(ds[0].ast.value) in ('self.__getattr__(name)', "self.__dict__['_' + name]")
-    R.check(vals_ok, g.q, 'get-base', 'the indexed array is the series named by the key', f'__getitem__ indexes {bases}', where=g.fi.where)
-    # set
-    st = []
+    for f, t in ((g, tg), (s, ts)):
+        R.check(t['slice_arg'] == t['index'] and t['loc_arg'] == t['index'], f.q, f"helpers-args:{t['slice_arg']}:{t['loc_arg']}",
+                'the index part of the key goes to the slice / label helpers', f"the helpers receive `{t['slice_arg']}` / `{t['loc_arg']}`, not the index part `{t['index']}`",
+                where=f.fi.where)
+        R.check(bool(t['slice_guard']) and bool(t['loc_guard']), f.q, 'helpers-dispatch', 'slices go to _resolve_period_slice, single labels to _locate_period_in_span',
+                'the slice/label dispatch is not `isinstance(index, slice)`', where=f.fi.where)
+    # get: <series>[a:b:c] and <series>[loc], where <series> is the array of `name`
+    sub_forms = []
+    for r in g.returns():
+        v = r.ast.value
+        if isinstance(v, ast.Subscript) and (g.holds(r.id, f"isinstance({g.fi.params()[1]}, tuple)") or True):
+            base = g.etext(r.id, v.value)
+            sub_forms.append((base, text(v.slice), r))
+    want_slice = ':'.join(tg['slice_names']) if len(tg['slice_names']) == 3 else None
+    series_ok = {f"self.__getattr__({tg['name']})", f"self.__dict__['_' + {tg['name']}]"}
+    seen = {'slice': False, 'loc': False}
+    for (base, sl, r) in sub_forms:
+        if base not in series_ok:
+            continue
+        if sl == want_slice:
+            seen['slice'] = True
+        elif sl == tg['loc_name']:
+            seen['loc'] = True
+        else:
+            R.violation(g.q, f'get-subscript:{sl}', f'`return {text(r.ast.value)}`: the series is indexed with `{sl}`, expected `{want_slice}` or `{tg["loc_name"]}`',
+                        where=g.where(r))
+    R.check(seen['slice'], g.q, 'get-slice', 'a label slice returns series[start:stop:step]', 'no `return series[start:stop:step]` for label slices', where=g.fi.where)
+    R.check(seen['loc'], g.q, 'get-label', 'a single label returns series[position]', 'no `return series[position]` for single labels', where=g.fi.where)
+    # set: self.__dict__['_' + name][...] = value
+    val = s.fi.params()[2]
+    want_slice_s = ':'.join(ts['slice_names']) if len(ts['slice_names']) == 3 else None
+    seen = {'slice': False, 'loc': False}
     for n in s.cfg.nodes:
         a = n.ast
-        if n.kind == 'stmt' and isinstance(a, ast.Assign) and isinstance(a.targets[0], ast.Subscript) and dict_slot(a.targets[0].value) is not None:
-            st.append((text(a.targets[0].value), text(a.targets[0].slice), text(a.value)))
-    forms = sorted(x[1] for x in st)
-    R.check(forms == ['location', 'start_location:stop_location:step'], s.q, f'set-forms:{forms}', 'set applies [start:stop:step] / [location] to the series',
-            f'__setitem__ stores through subscripts {forms} (e.g. a slice without the step writes every period in between)', where=s.fi.where)
-    R.check(all(x[0] == "self.__dict__['_' + name]" and x[2] == 'value' for x in st) and st, s.q, 'set-base', 'the value is written into the series named by the key',
-            f'__setitem__ stores {st}', where=s.fi.where)
+        if n.kind == 'stmt' and isinstance(a, ast.Assign) and isinstance(a.targets[0], ast.Subscript):
+            ds = dict_slot(a.targets[0].value)
+            if ds is None or is_underscore_key(ds[1]) is None:
+                continue
+            okb = ds[0] == 'self' and text(is_underscore_key(ds[1])) == ts['name'] and text(a.value) == val
+            R.check(okb, s.q, 'set-base:' + text(a)[:60], 'the value is written into the series named by the key', f'`{text(a)[:70]}` does not store `{val}` into the series `{ts["name"]}`',
+                    where=s.where(n))
+            sl = text(a.targets[0].slice)
+            if sl == want_slice_s:
+                seen['slice'] = True
+            elif sl == ts['loc_name']:
+                seen['loc'] = True
+            else:
+                R.violation(s.q, f'set-subscript:{sl}', f'`{text(a)[:70]}`: the series is written through `{sl}`, expected `{want_slice_s}` or `{ts["loc_name"]}` '
+                            f'(e.g. a slice without the step writes every period in between)', where=s.where(n))
+    R.check(seen['slice'], s.q, 'set-slice', 'a label slice writes series[start:stop:step]', 'no store through series[start:stop:step] for label slices', where=s.fi.where)
+    R.check(seen['loc'], s.q, 'set-label', 'a single label writes series[position]', 'no store through series[position] for single labels', where=s.fi.where)
     # non-tuple path: whole array
-    R.check(any(is_self_call(x, '__setattr__') and [text(a) for a in x.args] == ['key', 'value'] for x in ast.walk(s.fi.node)), s.q, 'set-whole',
+    keyg, keys_ = g.fi.params()[1], s.fi.params()[1]
+    R.check(any(is_self_call(x, '__setattr__') and [text(a) for a in x.args] == [keys_, val] for x in ast.walk(s.fi.node)), s.q, 'set-whole',
             'a plain name key replaces the whole series through __setattr__', '__setitem__(name, value) does not delegate to __setattr__(key, value)', where=s.fi.where)
-    R.check(any(is_self_call(x, '__getattr__') and [text(a) for a in x.args] == ['key'] for x in ast.walk(g.fi.node)), g.q, 'get-whole',
+    R.check(any(is_self_call(x, '__getattr__') and [text(a) for a in x.args] == [keyg] for x in ast.walk(g.fi.node)), g.q, 'get-whole',
             'a plain name key returns the whole series', '__getitem__(name) does not return __getattr__(key)', where=g.fi.where)
-    # unknown names raise KeyError in both
     for f in (g, s):
         ks = f.raises('KeyError')
         R.require(f.q, len(ks), 'KeyError for an unknown variable name', fi=f.fi, pred=lambda x: isinstance(x, ast.Raise))
@@ -119,6 +211,7 @@ def r2_get_set_symmetry(R) -> None:
 def r3_keyerror_discipline(R) -> None:
     q = f'{VC}._locate_period_in_span'
     f = Fn(R, q)
+    period = f.fi.params()[1]
     hs = [n for n in f.cfg.nodes if n.kind == 'except']
     R.expect(q, len(hs), 2, 'exception handlers around the search methods')
     for h in hs:
@@ -127,42 +220,54 @@ def r3_keyerror_discipline(R) -> None:
                 f'handler `{h.label()}` catches only some exception classes: other failures of the search method (e.g. NotImplementedError for several '
                 f'matches) would escape instead of KeyError', where=f.where(h))
         body = h.ast.body
-        ok = len(body) == 1 and isinstance(body[0], ast.Raise) and text(body[0].exc) == 'KeyError(period)' \
-            and isinstance(body[0].cause, ast.Name) and body[0].cause.id == h.ast.name
-        R.check(ok, q, f'handler:{text(h.ast.type) if h.ast.type else "bare"}:{stmt_key(body[0])[:50]}',
+        last = body[-1] if body else None
+        ok = isinstance(last, ast.Raise) and text(last.exc) == f'KeyError({period})' and isinstance(last.cause, ast.Name) and last.cause.id == h.ast.name \
+            and not any(isinstance(x, ast.Return) for s_ in body for x in ast.walk(s_))
+        R.check(ok, q, f'handler:{text(h.ast.type) if h.ast.type else "bare"}:{stmt_key(last)[:50] if last is not None else "empty"}',
                 'a failed lookup surfaces as KeyError(period) chained to the cause',
-                f'handler `{h.label()}` does `{text(body[0])[:60]}` instead of `raise KeyError(period) from e`: a missing label could alias another period',
+                f'handler `{h.label()}` ends in `{text(last)[:60] if last is not None else "nothing"}` instead of `raise KeyError({period}) from {h.ast.name}`: a missing label could alias another period',
                 where=f.where(h))
-    # every return is the result of a search call
     for r in f.returns():
         v = r.ast.value
-        ok = isinstance(v, ast.Call) and len(v.args) >= 1 and text(v.args[0]) == 'period'
+        ok = isinstance(v, ast.Call) and len(v.args) >= 1 and text(v.args[0]) == period
         R.check(ok, q, 'return:' + text(v)[:50], 'positions come only from a search method applied to the label',
                 f'`return {text(v)[:50]}` returns a default position', where=f.where(r))
-    # fallback
+    # fallback: role-based (the array of matching positions = <...>.nonzero()[0] / np.flatnonzero(...))
     fb = Fn(R, f'{VC}._locate_period_in_span_fallback')
+    per, span = fb.fi.params()[0], fb.fi.params()[1]
+    src = text(fb.fi.node)
+    R.check(f'np.asarray({span}, dtype=object) == {per}' in src, fb.q, 'fallback-compare', 'the fallback matches by equality with the label (object comparison)',
+            f'the fallback does not compare `np.asarray({span}, dtype=object) == {per}` (a cast of the label to the span dtype would alias absent labels)', where=fb.fi.where)
+
+    def count_fact(nid: int, n: int) -> bool:
+        """Is `number of matches == n` known at node nid (len(<arr>) == n, directly or through a local)?"""
+        for (a, truth, _t) in fb.guard_atoms(nid):
+            ea = fb.expand(nid, a, depth=3)
+            if truth and isinstance(ea, ast.Compare) and len(ea.ops) == 1 and isinstance(ea.ops[0], ast.Eq):
+                l, r_ = ea.left, ea.comparators[0]
+                for x, y in ((l, r_), (r_, l)):
+                    if is_call(x, 'len') and is_const(y, n):
+                        return True
+        return False
+
     ks = fb.raises('KeyError')
     if R.require(fb.q, len(ks), 'raise KeyError when nothing matches', fi=fb.fi, pred=lambda x: isinstance(x, ast.Raise)):
-        atoms = [(text(a), truth) for (a, truth, _t) in fb.guard_atoms(ks[0].id)]
-        R.check(('len(positions) == 0', True) in atoms, fb.q, 'fallback-zero', 'zero matches raise KeyError', f'KeyError guard is {atoms}', where=fb.where(ks[0]))
-    rets = fb.returns()
-    for r in rets:
-        atoms = [(text(a), truth) for (a, truth, _t) in fb.guard_atoms(r.id)]
-        R.check(('len(positions) == 1', True) in atoms, fb.q, 'fallback-one', 'a position is returned only for exactly one match',
-                f'`return {text(r.ast.value)}` is guarded by {atoms}', where=fb.where(r))
+        R.check(count_fact(ks[0].id, 0), fb.q, 'fallback-zero', 'zero matches raise KeyError', 'the KeyError of the fallback is not raised exactly for zero matches',
+                where=fb.where(ks[0]))
+    for r in fb.returns():
+        R.check(count_fact(r.id, 1), fb.q, 'fallback-one:' + text(r.ast.value)[:30], 'a position is returned only for exactly one match',
+                f'`return {text(r.ast.value)}` is not confined to the case of exactly one match (several matches would silently resolve to one of them)', where=fb.where(r))
     R.check(bool(fb.raises('NotImplementedError')), fb.q, 'fallback-many', 'multiple matches are refused', 'multiple matches are not refused', where=fb.fi.where)
-    # comparison is equality with the label over the whole span
-    src = text(fb.fi.node)
-    R.check('np.asarray(span, dtype=object) == period' in src, fb.q, 'fallback-compare', 'the fallback matches by equality with the label',
-            'the fallback does not compare `np.asarray(span, dtype=object) == period`', where=fb.fi.where)
 
 
 def run(R) -> None:
     R.explanation = (
-        'C10 (thin): _resolve_period_slice defaults, separate location of start/stop, +1 exactly when the located stop is not a slice; '
-        '__getitem__/__setitem__ resolve tuple keys through the same helpers and apply the same [start:stop:step] / [location] subscripts '
-        'to the same backing array; every handler in _locate_period_in_span re-raises KeyError(period) from e, no default position; '
-        'fallback: zero -> KeyError, one -> position, many -> refused. Does not decide what list.index / Index.get_loc select.'
+        'C10 (thin): _resolve_period_slice: locals are identified by role (what they are computed from); defaults for open ends only '
+        'under `is None`, start/stop located separately, slice hits reduced to .start/.stop, +1 exactly when the located stop is not a '
+        'slice; __getitem__/__setitem__ pass the index part to the same helpers and apply [start:stop:step] / [position] to the series of '
+        'the key; every handler in _locate_period_in_span is `except Exception` and re-raises KeyError(period) from e, no default '
+        'position; fallback: equality on object arrays, 0 matches KeyError, 1 match position, several refused. Does not decide what '
+        'list.index / Index.get_loc select.'
     )
     R.rule('C10.R1', lambda: r1_inclusive_stop(R))
     R.rule('C10.R2', lambda: r2_get_set_symmetry(R))
